@@ -308,8 +308,8 @@ type capture struct {
 }
 
 func (c *capture) OnEmit(_ context.Context, r *sdklog.Record) error { c.fn(r); return nil }
-func (c *capture) Shutdown(context.Context) error                  { return nil }
-func (c *capture) ForceFlush(context.Context) error                { return nil }
+func (c *capture) Shutdown(context.Context) error                   { return nil }
+func (c *capture) ForceFlush(context.Context) error                 { return nil }
 
 func main() {
 	vf.Main("C17", "exploration", func(c *vf.Ctx) {
